@@ -1,0 +1,95 @@
+//go:build verif
+
+package app
+
+import (
+	"context"
+	"net/http"
+	"sync"
+)
+
+// Verification hooks (build tag "verif" only). See /verif/DESIGN.md §3.7.
+
+// VerifHook, when set, receives one event per instrumented linearization point.
+var VerifHook func(ev string, kv map[string]any)
+
+var (
+	verifGateMu sync.Mutex
+	verifGates  = map[string]chan struct{}{}
+	// VerifGateReached, when set, is called (outside any verif lock) when an armed gate is reached.
+	VerifGateReached func(point string)
+)
+
+func verifTrace(ev string, kv map[string]any) {
+	if h := VerifHook; h != nil {
+		h(ev, kv)
+	}
+}
+
+// VerifArmGate makes the next verifGate(point) calls block until VerifReleaseGate(point).
+func VerifArmGate(point string) {
+	verifGateMu.Lock()
+	verifGates[point] = make(chan struct{})
+	verifGateMu.Unlock()
+}
+
+// VerifReleaseGate releases all goroutines blocked at point and disarms it.
+func VerifReleaseGate(point string) {
+	verifGateMu.Lock()
+	ch := verifGates[point]
+	delete(verifGates, point)
+	verifGateMu.Unlock()
+	if ch != nil {
+		close(ch)
+	}
+}
+
+func verifGate(point string) {
+	verifGateMu.Lock()
+	ch := verifGates[point]
+	verifGateMu.Unlock()
+	if ch == nil {
+		return
+	}
+	if f := VerifGateReached; f != nil {
+		f(point)
+	}
+	<-ch
+}
+
+// verifProcess reports the state of the channel goroutine after it has handled one recSegData.
+// It runs in the single channel goroutine (deferred at the top of receivedSegData).
+func verifProcess(ch *channel, rsd *recSegData) {
+	if VerifHook == nil {
+		return
+	}
+	g := ch.segTimesGen
+	fill := map[string]any{}
+	sizes := map[string]any{}
+	for name, b := range g.segDataBuffers {
+		fill[name] = int(b._nrItems)
+		sizes[name] = len(b.items)
+	}
+	verifTrace("process", map[string]any{
+		"ch": ch.name, "track": rsd.name, "seqNr": int64(rsd.seqNr), "seqNrIn": int64(rsd.seqNrIn),
+		"chunkNr": int(rsd.chunkNr), "complete": rsd.isComplete, "dts": int64(rsd.dts), "dur": int64(rsd.dur),
+		"latestSeqNr": int64(g.latestSeqNr), "started": g._started, "shifted": g._shifted,
+		"windowSize": int(g.windowSize), "nrTracks": int(g._nrTracks), "fill": fill, "bufLen": sizes,
+		"counterFill": int(g.counters._nrCounters), "counterLen": len(g.counters.counters),
+		"maxNrBufSegs": int(ch.maxNrBufSegs), "masterSegDuration": int64(ch.masterSegDuration),
+		"masterTimescale": int64(ch.masterTimescale), "masterTrack": ch.masterTrName,
+		"seqNrShift": ch.masterSeqNrShift, "timeShift": ch.masterTimeShift,
+	})
+}
+
+// VerifNewRouter builds a Receiver and its HTTP router the way Run does, for use by the harness.
+func VerifNewRouter(ctx context.Context, prefix, storage string, timeShiftBufferDepthS uint64,
+	receiveNrRawSegments uint64, fileServerPath string, cfg *Config) (http.Handler, *Receiver, error) {
+	opts := &Options{prefix: prefix, storage: storage, timeShiftBufferDepthS: timeShiftBufferDepthS,
+		receiveNrRawSegments: receiveNrRawSegments, fileServerPath: fileServerPath}
+	r, err := NewReceiver(ctx, opts, cfg)
+	if err != nil {
+		return nil, nil, err
+	}
+	return setupRouter(r, storage, fileServerPath), r, nil
+}
